@@ -60,7 +60,7 @@ def oracle_c08(sim) -> None:
         btol = 0.012 + _stall_total(sim) if hts is not op.writes and len(op.handoffs) >= len(op.writes) else tol
         no_echo = not op.echo_rx or min(op.echo_rx) > op.ret_t
         no_reply = not [t for t, _ in op.reply_rx if t <= op.ret_t]
-        answered_never = no_echo and no_reply
+        answered_never = no_echo and no_reply and not op.collisions
         # 2. back-off (only meaningful with the limiter's bucket out of the picture)
         if not limits and not disrupted and answered_never:
             for i, g in enumerate(gaps):
@@ -74,14 +74,14 @@ def oracle_c08(sim) -> None:
                         ctx.violate("C08", "backoff_doubling", "", f"op{op.id} {op.frame} waits {gaps[i - 1]:.4f} then "
                                     f"{g:.4f}: not doubled")
                         break
-        elif not limits and not disrupted and gaps and no_reply:
+        elif not limits and not disrupted and gaps and no_reply and not op.collisions:
             for g in gaps:
                 if g < 0.5 - 1e-6 - (0 if btol < tol else tol):
                     ctx.violate("C08", "backoff_value", "early", f"op{op.id} {op.frame} retried after {g:.4f} s < 0.5 s")
                     break
         # 1b. retry budget: no fewer if the timeout allows
         awaited = op.rep is not None and bool(op.d["wfr"]) and k("disable_qos") is False
-        starved = no_echo or (awaited and no_reply)
+        starved = (no_echo or (awaited and no_reply)) and not op.collisions
         if starved and not disrupted and not limits and op.outcome[0] == "perr":
             ended_early = op.ret_t < deadline - 1e-6
             if ended_early and W < limit and not sim.hub.fault_counts.get("hgi80_drop"):
@@ -165,8 +165,9 @@ def oracle_c06(sim) -> None:
                 ctx.violate("C06", "reply_not_recognised", op.code, f"{op.frame}: reply awaited but the echo was returned")
             else:
                 cls = sim.foreign_frames.get(got, "unknown")
-                if cls in ("requester", "rq_other"):
-                    ctx.probe("returned_" + cls + "_collision")
+                rel = sim.relation(op, got)
+                if cls in ("requester", "rq_other") or rel:
+                    ctx.probe("returned_" + (rel or cls) + "_collision")
                 else:
                     ctx.violate("C06", "near_miss_taken", cls, f"{op.frame}: returned {got!r} (a {cls} near-miss)")
         elif kind == "perr":
